@@ -163,7 +163,7 @@ structure St where
   halfReady : List Nat := []
   appWaiting : List ((Nat × Nat) × Nat) := []
   peerWaiting : List (String × List Nat) := []
-  originWaiting : List ((Nat × Nat) × Option String) := []
+  originWaiting : List ((Nat × Nat × Nat) × Option String) := []   -- (connection, hbh, e2e) → origin
   sentAnswers : List (Option String × (Nat × List Nat)) := []   -- origin → (maxlen, deque)
   e2e : Nat
   nextHbhSeed : Nat                                -- scripted generator start of the next connection
@@ -335,10 +335,13 @@ def flagConnectionAsReady (s : St) (cid : Nat) : St :=
           | none => false
       if mine then { a with ready := true } else a }
 
+def originKey (cid : Nat) (m : AMsg) : Nat × Nat × Nat :=
+  (if Config.originKeyPerConn then cid + 1 else 0, m.hbh, m.e2e)
+
 /-- `_record_answer`; `none` = raised TypeError (typed answer without Result-Code
     for a known peer: `int(None / 1000)`). -/
 def recordAnswer (s : St) (cid : Nat) (m : AMsg) (hasRC : Bool) : Option St :=
-  let key := (m.hbh, m.e2e)
+  let key := originKey cid m
   match s.originWaiting.find? (·.1 == key) with
   | none => some s
   | some (_, origin) =>
@@ -377,7 +380,7 @@ def sendMessage (s : St) (cid : Nat) (m : AMsg) (hasRC : Bool) : St × Bool :=
       | some s' => (s', true)
       | none =>
         -- deque append and deletion happened before the raise
-        let key := (m.hbh, m.e2e)
+        let key := originKey cid m
         let s1 := match s.originWaiting.find? (·.1 == key) with
           | none => s
           | some (_, origin) =>
@@ -599,12 +602,12 @@ def receiveAppAnswer (s : St) (m : AMsg) : St :=
   | some (_, ai) => appReceiveAnswer s ai m
 
 /-- First statement of `_receive_message`: remember the origin of the message. -/
-def recordOrigin (s : St) (m : AMsg) (info : MsgInfo) : St :=
+def recordOrigin (s : St) (cid : Nat) (m : AMsg) (info : MsgInfo) : St :=
   if info.hasOH then
     { s with originWaiting :=
-        if s.originWaiting.any (·.1 == (m.hbh, m.e2e)) then
-          s.originWaiting.map fun (k, v) => if k == (m.hbh, m.e2e) then (k, m.oh) else (k, v)
-        else s.originWaiting ++ [((m.hbh, m.e2e), m.oh)] }
+        if s.originWaiting.any (·.1 == originKey cid m) then
+          s.originWaiting.map fun (k, v) => if k == originKey cid m then (k, m.oh) else (k, v)
+        else s.originWaiting ++ [(originKey cid m, m.oh)] }
   else s
 
 /-- The `match (is_request, command_code)` of `_receive_message` (inside `try`). -/
@@ -621,23 +624,27 @@ def handleByCommand (s : St) (cid : Nat) (m : AMsg) (info : MsgInfo) : HR :=
   else if m.isRequest then receiveAppRequest s cid m info
   else (receiveAppAnswer s m, none)
 
+/-- the window test of `_receive_message`: has a request with this origin and
+    end-to-end id been answered among the remembered answers to that origin? -/
+def answeredInWindow (s : St) (m : AMsg) : Bool :=
+  match s.sentAnswers.find? (·.1 == m.oh) with
+  | some (_, (_, dq)) => dq.contains m.e2e
+  | none => false
+
 def crashReader (s : St) (cid : Nat) (exc : String) : St :=
   (s.modConn cid fun c => { c with readerCrashed := true }).emit (.crash s!"reader c{cid}" exc)
 
 /-- `_receive_message`. A `crash` output is emitted when an exception escapes
     (the reader thread dies). -/
 def receiveMessage (s : St) (cid : Nat) (m : AMsg) (info : MsgInfo) : St :=
-  let s := recordOrigin s m info
+  let s := recordOrigin s cid m info
   -- pre-`try` section
   if m.isRequest && info.validateRaises then crashReader s cid "ValueError"
   else if m.isRequest && !info.missing.isEmpty then
     let (s, ok) := sendMessage s cid (generateAnswer s m info (some 5005) info.missing) info.ansTyped
     if ok then s else crashReader s cid "TypeError"
   else
-    let dup := info.hasOH && m.isRequest && m.isRetransmit &&
-      (match s.sentAnswers.find? (·.1 == m.oh) with
-       | some (_, (_, dq)) => dq.contains m.e2e
-       | none => false)
+    let dup := info.hasOH && m.isRequest && m.isRetransmit && answeredInWindow s m
     if dup then
       let (s, ok) := sendMessage s cid (generateAnswer s m info (some 5012)) info.ansTyped
       if ok then s else crashReader s cid "TypeError"
